@@ -286,24 +286,23 @@ class CounterToken(Token, FileSystemEventHandler):
             self.watchedpath,
         )
         name = Path(event.src_path).name
-        # Name is in cache if we did not release the token ourselves
-        if name in self.cache:
-            with self.lock:
-                if name in self.cache:
-                    logging.debug("Deleting %s from token cache (event)", name)
-                    fc = self.cache[name]
-                    del self.cache[name]
+        # Name is in cache if we did not release the token ourselves (the
+        # cache is only looked at with the lock: a full update might be
+        # rebuilding it)
+        with self.lock:
+            fc = self.cache.pop(name, None)
+            if fc is not None:
+                logging.debug("Deleting %s from token cache (event)", name)
+                self.available += fc.count
+                logger.debug(
+                    "Getting back %d tokens (%d available)",
+                    fc.count,
+                    self.available,
+                )
 
-                    self.available += fc.count
-                    logger.debug(
-                        "Getting back %d tokens (%d available)",
-                        fc.count,
-                        self.available,
-                    )
-
-            # Do not lock here (notify only)
-            if self.available > 0:
-                self.aio_notify()
+        # Do not lock here (notify only)
+        if fc is not None and self.available > 0:
+            self.aio_notify()
 
     def on_created(self, event):
         logger.debug(
